@@ -104,15 +104,27 @@ func (o *FilterOptimizer) optimizeExpr(expr Expression) *ScanType {
 			return o.optimizeOrExpr(e)
 		case PrefixMatch:
 			// It may use PREFIX or FULL
+			if literalOnLeft(e) {
+				// 'literal' ^= key does not constrain the key to a prefix
+				return &ScanType{FULL, nil}
+			}
 			return o.optimizePrefixMatchExpr(e)
 		case Eq:
 			// It may use MGET or FULL
 			return o.optimizeEqualExpr(e)
 		case Gt, Gte:
 			// It may use RANGE or FULL
+			if literalOnLeft(e) {
+				// 'literal' > key is key < 'literal'
+				return o.optimizeLtLteExpr(e)
+			}
 			return o.optimizeGtGteExpr(e)
 		case Lt, Lte:
 			// It may use RANGE or FULL
+			if literalOnLeft(e) {
+				// 'literal' < key is key > 'literal'
+				return o.optimizeGtGteExpr(e)
+			}
 			return o.optimizeLtLteExpr(e)
 		case In:
 			// It must use MGET
@@ -134,6 +146,14 @@ func (o *FilterOptimizer) optimizeExpr(expr Expression) *ScanType {
 		// Other expression use FULL
 		return &ScanType{FULL, nil}
 	}
+}
+
+// literalOnLeft reports whether e compares a string literal on the left
+// with a key/value field on the right, such as 'b' > key
+func literalOnLeft(e *BinaryOpExpr) bool {
+	_, lok := e.Left.(*StringExpr)
+	_, rok := e.Right.(*FieldExpr)
+	return lok && rok
 }
 
 func (o *FilterOptimizer) optimizeInExpr(e *BinaryOpExpr) *ScanType {
